@@ -103,7 +103,9 @@ class C07(Check):
             "pair; postfix forms (call with keyword argument, subscript, attribute) under every "
             "operator; literal forms; no-whitespace spellings; (thorough) all ordered triples with "
             "at most one prefix operator; token-level mutations (every proper prefix, every "
-            "single-token deletion and duplication). Non-trivial = CPython accepts the string "
+            "single-token deletion and duplication); importer instance histories: one long-lived "
+            "ASTToPymbolic instance imports windows of 60 strings one after the other, every parse "
+            "tree dropped after use, against a fresh instance per string. Non-trivial = CPython accepts the string "
             "(bracketing oracle applies); distinct = distinct strings.")
     assumptions = [
         "CPython's ast.parse is the reference for the shared grammar; strings it rejects only "
@@ -127,6 +129,7 @@ class C07(Check):
             ("literals", self.gen_literals),
             ("nospace", self.gen_nospace),
         ]
+        fams.append(("importer-instance", lambda: self.gen_importer_windows(tier)))
         if tier == "quick":
             fams.append(("mutations", lambda: self.gen_mutations(False)))
         else:
@@ -135,6 +138,19 @@ class C07(Check):
         return fams
 
     UO = ((), ("-",), ("+",), ("~",), ("not",))
+
+    WINDOW = 60
+
+    def importer_strings(self, tier):
+        gens = [self.gen_parens(), self.gen_postfix(), self.gen_literals(), self.gen_ternary()]
+        if tier != "quick":
+            gens.append(self.gen_pairs())
+        return [join(m, tuple(t)) for m, t in itertools.chain(*gens)]
+
+    def gen_importer_windows(self, tier):
+        n = len(self.importer_strings(tier))
+        for start in range(0, n, self.WINDOW):
+            yield ("imphist", (tier, start))
 
     def gen_pairs(self):
         for o1, o2 in itertools.product(BIN, repeat=2):
@@ -275,6 +291,16 @@ class C07(Check):
     def check_item(self, family, item, tier):
         r = Res()
         mode, toks = item[0], tuple(item[1])
+        if mode == "imphist":
+            strings = self.importer_strings(toks[0])[toks[1]:toks[1] + self.WINDOW]
+            n, bad = importer_instance_history(strings, r)
+            r.keys.append(("imphist", toks))
+            if bad:
+                r.fail("importer-instance-history", f"importer-instance-history|window {toks[1]}",
+                       f"one ASTToPymbolic instance imported the {n} importable strings of this "
+                       f"window one after the other (every parse tree dropped after use); for at "
+                       f"least one of them its result differs from a fresh instance's")
+            return r
         s = join(mode, toks)
         for kind, sig, detail in analyse(s, toks, r):
             r.fail(kind, sig, detail)
@@ -361,6 +387,34 @@ def _node_kind(n):
     if isinstance(n, ast.Constant):
         return f"Constant:{type(n.value).__name__}"
     return type(n).__name__
+
+
+def importer_instance_history(strings, r=None):
+    """-> (importable strings, number for which the long-lived instance disagrees with a fresh one)"""
+    from pymbolic.interop.ast import ASTToPymbolic
+    shared = ASTToPymbolic()
+    n = bad = 0
+    for s in strings:
+        try:
+            node = ast.parse(s, mode="eval").body
+            want = from_pm(ASTToPymbolic()(node))
+        except RecursionError:
+            raise
+        except Exception:  # noqa: BLE001
+            continue            # not importable (judged per string in the other families)
+        del node
+        n += 1
+        try:
+            got = from_pm(shared(ast.parse(s, mode="eval").body))
+        except RecursionError:
+            raise
+        except Exception as e:  # noqa: BLE001
+            got = ("raised", type(e).__name__)
+        if r is not None:
+            r.evals += 1
+        if got != want:
+            bad += 1
+    return n, bad
 
 
 def importer_outcome(node):
